@@ -53,9 +53,13 @@ package core
 //@   requires os.first >= 0 && os.n >= 0
 //@   ensures frame: os.first == old(os.first) && os.n == old(os.n)
 
+// C04: the parsed-object cache of an object stream is keyed by the INDEX inside the stream (what lookups ask for), a hit
+// returns what was stored under that index, and a parsed object is stored under the index it was asked for
 //@ func (*ObjectStream) GetObjectByIndex results (obj, num, err)
-//@   property C02
+//@   property C02, C04
 //@   requires os.first >= 0 && os.n >= 0
+//@   atreturn#3 cache_hit_returns_the_entry_of_this_index: has(os.objects, index) && obj == os.objects[index]
+//@   atreturn#6 parsed_object_is_cached_under_its_index: has(os.objects, index) && os.objects[index] == obj
 
 // Cross-reference streams: the /W widths and the /Index pairs come from the file.
 // C04: the entry kind is decided by the type field (default 1 when its width is 0): 0 = free (an error on lookup),
